@@ -183,6 +183,18 @@ thread_local! {
 }
 
 fn run_op(sh: &Shared, tid: usize, op: COp) -> OpResult {
+    run_op_on(&sh.level, &sh.generator, &sh.book, tid, op)
+}
+
+pub struct ShView<'a> {
+    level: &'a PriceLevel,
+    generator: &'a UuidGenerator,
+    book: &'a [Ord_],
+}
+
+pub fn run_op_on(level: &PriceLevel, generator: &UuidGenerator, book: &[Ord_], tid: usize, op: COp) -> OpResult {
+    let sh = ShView { level, generator, book };
+    let sh = &sh;
     match op {
         COp::Add | COp::AddIce => {
             sh.level.add_order(added_order(op, tid));
@@ -191,7 +203,7 @@ fn run_op(sh: &Shared, tid: usize, op: COp) -> OpResult {
         COp::Match(q) => {
             let r = sh
                 .level
-                .match_order(q, oid(900 + tid as u64), &sh.generator);
+                .match_order(q, oid(900 + tid as u64), sh.generator);
             let ids = r
                 .transactions
                 .as_vec()
@@ -1058,6 +1070,7 @@ pub struct ExploreOut {
     pub nondeterministic_programs: u64,
     pub capped: Option<String>,
     pub other_ops: u64,
+    pub outcome_set: HashSet<u64>,
 }
 
 pub struct ExploreCfg {
@@ -1271,6 +1284,7 @@ pub fn explore(programs: &[Program], cfg: &ExploreCfg) -> ExploreOut {
     }
     out.end_states = end_states.len() as u64;
     out.outcomes = outcomes.len() as u64;
+    out.outcome_set = outcomes;
     if stop.load(Ordering::Relaxed) {
         out.capped = Some(format!("wall cap {:?} reached; exploration incomplete", cfg.wall_cap));
     }
@@ -1365,4 +1379,44 @@ pub fn replay_doc(prog: &Program, fd: &Found, prop: &str, tier: &str, cfg: &Exec
         "yield_stats": cfg.yield_stats,
         "yield_counter": cfg.yield_counter,
     })
+}
+
+
+/// outcome fingerprint of a free-running execution on real OS threads (same definition as `Exec::outcome_hash`)
+pub fn run_real_threads(prog: &Program) -> u64 {
+    use std::sync::{Arc, Barrier};
+    let level = Arc::new(PriceLevel::new(LEVEL_PRICE));
+    let generator = Arc::new(UuidGenerator::new(NS));
+    let book = Arc::new(book_orders(prog.book));
+    for o in book.iter() {
+        level.add_order(*o);
+    }
+    for u in book_prelude(prog.book) {
+        let _ = level.update_order(u);
+    }
+    let barrier = Arc::new(Barrier::new(prog.threads.len()));
+    let mut hs = vec![];
+    for (tid, ops) in prog.threads.iter().enumerate() {
+        let (level, generator, book, barrier, ops) = (level.clone(), generator.clone(), book.clone(), barrier.clone(), ops.clone());
+        hs.push(std::thread::spawn(move || {
+            barrier.wait();
+            ops.iter().map(|op| run_op_on(&level, &generator, &book, tid, *op)).collect::<Vec<_>>()
+        }));
+    }
+    let results: Vec<Vec<OpResult>> = hs.into_iter().map(|h| h.join().unwrap()).collect();
+    let q = observe(&level);
+    let recs: Vec<Rec> = q.orders.iter().map(rec).collect();
+    let res: Vec<String> = results
+        .iter()
+        .map(|r| {
+            r.iter()
+                .map(|x| match x {
+                    OpResult::Matched(m, _) => m.describe(),
+                    o => format!("{o:?}"),
+                })
+                .collect::<Vec<_>>()
+                .join(";")
+        })
+        .collect();
+    hash64(&(recs, q.vis, q.hid, q.count, res))
 }
